@@ -2,6 +2,7 @@ package characteristic
 
 import (
 	"fmt"
+	"math"
 	"net"
 
 	"github.com/xiam/to"
@@ -165,10 +166,25 @@ func (c *Characteristic) onValueUpdateFromConn(funcs []ConnChangeFunc, conn net.
 func (c *Characteristic) clampFloat(value float64) interface{} {
 	min, minOK := c.MinValue.(float64)
 	max, maxOK := c.MaxValue.(float64)
+	if math.IsNaN(value) {
+		// NaN (e.g. from the string "NaN") compares false with every bound
+		value = 0
+		if minOK == true {
+			value = min
+		}
+	}
 	if maxOK == true && value > max {
 		value = max
 	} else if minOK == true && value < min {
 		value = min
+	}
+	if math.IsInf(value, 0) {
+		// infinities cannot be encoded as JSON
+		if value > 0 {
+			value = math.MaxFloat64
+		} else {
+			value = -math.MaxFloat64
+		}
 	}
 
 	return value
